@@ -872,7 +872,11 @@ func do_WITH_CLEANUP(vm *Vm, arg int32) error {
 
 	wasErr := false
 	if exc != py.None {
-		wasErr = res == py.True
+		// any true value returned by __exit__ suppresses the exception
+		wasErr, err = py.ObjectIsTrue(res)
+		if err != nil {
+			return err
+		}
 	}
 	if wasErr {
 		/* There was an exception and a True return */
